@@ -449,7 +449,7 @@ fn gen_form_with(g: &mut Rng, secrets: &HashMap<String, String>, forced_ak: Opti
     let key = format!("user/{}/{}", g.alnum(4), *g.pick(&["a b.txt", "é.png", "x+y", "plain", "q?x=1", "50%", "dir//f"]));
     let ak = match forced_ak {
         Some(a) => a,
-        None => if g.chance(3, 4) { AK } else { AK2 },
+        None => crate::monitor::c05::pick_ak(g),
     };
     let amz_date = unix_to_amz_date(now_unix() - g.range(0, 3600));
     let p = V4Params { access_key: ak.into(), secret: secrets[ak].clone(), amz_date: amz_date.clone(), region: "us-east-1".into(), service: "s3".into() };
